@@ -76,17 +76,54 @@ def batchCols : List Cell → Int
 /-- The bytes accumulated in `rb->tmp` by a batch. -/
 def batchBytes (cs : List Cell) : List UInt8 := cs.flatMap fun c => glyphBytes c.lmask
 
-/-- `start` of the TEXT case: `tickit_utf8_count(text, &start, &limit)` with `limit.columns = offs`. -/
-def textStart (cell : Cell) : Utf8.StrPos :=
+/-! ### The TEXT case
+
+  Two versions: `textReqsOld` is the code before the repair `fixes/C04_flush_wide_cut.patch` (kept for the
+  counterexample theorems), `textReqs` the code with it.  They differ only when a run boundary falls inside a
+  double-width character or the slice is empty. -/
+
+/-- `tickit_utf8_count(text, &start, &limit)` with `limit.columns = offs`. -/
+def textStart0 (cell : Cell) : Utf8.StrPos :=
   (Utf8.ncountmore cell.text none {} (some (Utf8.limitColumns cell.offs))).pos
 
-/-- `end` of the TEXT case: `tickit_utf8_countmore(text, &end, &limit)` from `start` with `limit.columns = offs + cols`. -/
-def textEnd (cell : Cell) : Utf8.StrPos :=
-  (Utf8.ncountmore cell.text none (textStart cell) (some (Utf8.limitColumns (cell.offs + cell.cols)))).pos
+/-- Before the repair: `tickit_utf8_countmore(text, &end, &limit)` from `start` with `limit.columns = offs + cols`. -/
+def textEndOld (cell : Cell) : Utf8.StrPos :=
+  (Utf8.ncountmore cell.text none (textStart0 cell) (some (Utf8.limitColumns (cell.offs + cell.cols)))).pos
 
-/-- The print request of the TEXT case. -/
-def textPrint (cell : Cell) : Req :=
-  .print cell.text (textStart cell).bytes.toNat ((textEnd cell).bytes - (textStart cell).bytes).toNat
+/-- Before the repair: `setpen`, then one print request whatever its length. -/
+def textReqsOld (cell : Cell) : List Req :=
+  [.setpen cell.pen,
+   .print cell.text (textStart0 cell).bytes.toNat ((textEndOld cell).bytes - (textStart0 cell).bytes).toNat]
+
+/-- `start` after `if(start.columns < startcol) { limit graphemes = start.graphemes + 1; countmore }`:
+    a run that begins inside a double-width character steps over it. -/
+def textStart (cell : Cell) : Utf8.StrPos :=
+  let s0 := textStart0 cell
+  if s0.columns < cell.offs then
+    (Utf8.ncountmore cell.text none s0 (some (Utf8.limitGraphemes (s0.graphemes + 1)))).pos
+  else s0
+
+/-- `end`: counted from `start` up to column `offs + cols` when `start` lies before it. -/
+def textEnd (cell : Cell) : Utf8.StrPos :=
+  let s := textStart cell
+  if s.columns < cell.offs + cell.cols then
+    (Utf8.ncountmore cell.text none s (some (Utf8.limitColumns (cell.offs + cell.cols)))).pos
+  else s
+
+/-- `lead = start.columns - startcol`: columns at the start of the run that hold the right half of a wide character. -/
+def textLead (cell : Cell) : Int := (textStart cell).columns - cell.offs
+
+/-- `trail = endcol - end.columns`: columns at the end of the run that hold the left half of a wide character. -/
+def textTrail (cell : Cell) : Int := cell.offs + cell.cols - (textEnd cell).columns
+
+/-- The requests of the TEXT case: `setpen`, blanks for a leading half, the slice when it is not empty, blanks for a
+    trailing half. -/
+def textReqs (cell : Cell) : List Req :=
+  [.setpen cell.pen] ++
+  (if textLead cell > 0 then [.erasech (textLead cell) .yes] else []) ++
+  (if (textEnd cell).bytes > (textStart cell).bytes then
+     [.print cell.text (textStart cell).bytes.toNat ((textEnd cell).bytes - (textStart cell).bytes).toNat] else []) ++
+  (if textTrail cell > 0 then [.erasech (textTrail cell) .yes] else [])
 
 /-- `moveend` of the ERASE case. -/
 def eraseMoveend (rb : RB) (line col : Int) (cell : Cell) : Bool :=
@@ -98,39 +135,40 @@ def andThen (pre : List Req) (r : List Req × Outcome) : List Req × Outcome := 
 /-- `if(phycol < col) tickit_term_goto(tt, line, col);` -/
 def gotoIf (phycol line col : Int) : List Req := if phycol < col then [.goto line col] else []
 
-/-- The `for(int col = 0; col < rb->cols; )` loop of one line, from `col` with the tracker at `phycol`. -/
-def flushCols (rb : RB) (line : Int) : Nat → Int → Int → List Req × Outcome
+/-- The `for(int col = 0; col < rb->cols; )` loop of one line, from `col` with the tracker at `phycol`;
+    `txt` is the TEXT case (`textReqs`, or `textReqsOld` for the code before the repair). -/
+def flushCols (txt : Cell → List Req) (rb : RB) (line : Int) : Nat → Int → Int → List Req × Outcome
   | 0, col, _ => if col < rb.cols then ([], .fuelOut) else ([], .ok)
   | fuel + 1, col, phycol =>
     if ¬ col < rb.cols then ([], .ok)
     else
       let cell := rb.cell line col
       match cell.state with
-      | .skip => flushCols rb line fuel (col + cell.cols) phycol
+      | .skip => flushCols txt rb line fuel (col + cell.cols) phycol
       | .text =>
-        andThen (gotoIf phycol line col ++ [.setpen cell.pen, textPrint cell])
-          (flushCols rb line fuel (col + cell.cols) (col + cell.cols))
+        andThen (gotoIf phycol line col ++ txt cell)
+          (flushCols txt rb line fuel (col + cell.cols) (col + cell.cols))
       | .erase =>
         let moveend := eraseMoveend rb line col cell
         andThen (gotoIf phycol line col ++ [.setpen cell.pen, .erasech cell.cols (if moveend then .yes else .maybe)])
-          (flushCols rb line fuel (col + cell.cols) (if moveend then col + cell.cols else -1))
+          (flushCols txt rb line fuel (col + cell.cols) (if moveend then col + cell.cols else -1))
       | .line =>
         let batch := lineBatch rb line col
         andThen (gotoIf phycol line col ++ [.setpen cell.pen, .print (batchBytes batch) 0 (batchBytes batch).length])
-          (flushCols rb line fuel (col + batch.length) (col + batchCols batch))
+          (flushCols txt rb line fuel (col + batch.length) (col + batchCols batch))
       | .char =>
         let bs := Utf8.put cell.cp.toNat
         andThen (gotoIf phycol line col ++ [.setpen cell.pen, .print bs 0 bs.length])
-          (flushCols rb line fuel (col + cell.cols) (col + cell.cols))
+          (flushCols txt rb line fuel (col + cell.cols) (col + cell.cols))
       | .cont => (gotoIf phycol line col, .aborted)
 
 /-- The `for(int line = 0; line < rb->lines; line++)` loop: `n` lines from `line`. -/
-def flushLines (rb : RB) : Nat → Int → List Req × Outcome
+def flushLines (txt : Cell → List Req) (rb : RB) : Nat → Int → List Req × Outcome
   | 0, _ => ([], .ok)
   | n + 1, line =>
-    let r := flushCols rb line (rb.cols.toNat + 1) 0 (-1)
+    let r := flushCols txt rb line (rb.cols.toNat + 1) 0 (-1)
     match r.2 with
-    | .ok => andThen r.1 (flushLines rb n (line + 1))
+    | .ok => andThen r.1 (flushLines txt rb n (line + 1))
     | _ => r
 
 /-- What a flush does: the requests in order, how it ended, and the buffer afterwards. -/
@@ -139,10 +177,16 @@ structure FlushRes where
   out : Outcome
   rb : RB
 
-/-- `tickit_renderbuffer_flush_to_term(rb, tt)`. -/
-def flushToTerm (rb : RB) : FlushRes :=
-  let r := flushLines rb rb.lines.toNat 0
+/-- The flush with a given TEXT case. -/
+def flushWith (txt : Cell → List Req) (rb : RB) : FlushRes :=
+  let r := flushLines txt rb rb.lines.toNat 0
   { reqs := r.1, out := r.2, rb := if r.2 = .ok then reset rb else rb }
+
+/-- `tickit_renderbuffer_flush_to_term(rb, tt)`. -/
+def flushToTerm (rb : RB) : FlushRes := flushWith textReqs rb
+
+/-- `tickit_renderbuffer_flush_to_term(rb, tt)` before the repair of the TEXT case. -/
+def flushToTermOld (rb : RB) : FlushRes := flushWith textReqsOld rb
 
 /-! ## `tickit_term_setpen` (src/term.c) -/
 
@@ -375,8 +419,6 @@ inductive Want
   | glyph (g : Glyph) (pen : Pen)
   /-- a line cell: any box-drawing glyph with the arms of `mask` (the exact one where Unicode has one) -/
   | line (mask : Nat) (pen : Pen)
-  /-- one half of a double-width character cut by a run boundary: written with this pen, content not specified -/
-  | half (pen : Pen)
   /-- the buffer is ill-formed here (a CONT cell pointing at a CONT, text shorter than its run): nothing is claimed -/
   | unspecified
 deriving DecidableEq, Repr
@@ -402,7 +444,8 @@ def want (rb : RB) (line col : Int) : Want :=
       match colGlyph (graphemes sc.text) 0 (sc.offs + (col - s)) with
       | none => .unspecified
       | some (g, c0, w) =>
-        if sc.offs ≤ c0 ∧ c0 + w ≤ sc.offs + sc.cols then .glyph g sc.pen else .half sc.pen
+        -- a double-width character cut by a boundary of the run cannot be shown: its visible half is blank
+        if sc.offs ≤ c0 ∧ c0 + w ≤ sc.offs + sc.cols then .glyph g sc.pen else .glyph .blank sc.pen
 
 /-- Rendition equality: `tickit_pen_equiv` (an absent attribute is its default). -/
 def penSame (a b : Pen) : Bool := Pen.equiv a b
